@@ -16,6 +16,7 @@ import Bmc.Proofs.GenDec.GetChannelAuthenticationCapabilitiesRsp
 import Bmc.Proofs.GenDec.GetSDRRepositoryInfoRsp
 import Bmc.Proofs.GenDec.GetPowerReadingRsp
 import Bmc.Proofs.GenDec.GetChassisStatusRsp
+import Bmc.Proofs.GenDec.GetDeviceIDRsp
 import Bmc.Proofs.GenDec.RAKPMessage4
 import Bmc.Proofs.GenDec.RAKPMessage2
 import Bmc.Proofs.GenDec.RAKPMessage1
@@ -72,6 +73,7 @@ import Bmc.Proofs.GenDec.GetDCMISensorInfoRsp
 #print axioms Bmc.Proofs.GenDec.GetSDRRepositoryInfoRsp_gen_eq
 #print axioms Bmc.Proofs.GenDec.GetPowerReadingRsp_gen_eq
 #print axioms Bmc.Proofs.GenDec.GetChassisStatusRsp_gen_eq
+#print axioms Bmc.Proofs.GenDec.GetDeviceIDRsp_gen_eq
 #print axioms Bmc.Proofs.GenDec.RAKPMessage4_gen_eq
 #print axioms Bmc.Proofs.GenDec.RAKPMessage2_gen_eq
 #print axioms Bmc.Proofs.GenDec.RAKPMessage1_gen_eq
